@@ -28,6 +28,7 @@ type Vibranium struct {
 	config  types.Config
 	counter sync.WaitGroup
 	stop    chan struct{}
+	taskMu  sync.Mutex // guards TaskNum
 	TaskNum int
 }
 
